@@ -1,11 +1,11 @@
 CHECKS["C12"] = (
  "online reference-model monitor over random cursor histories (runtime monitoring)",
- "Every method result of parse.Input and buffer.Lexer is compared with an executable reference cursor while {Q} (quick) / {T} (thorough) random contract-respecting histories run over hostile inputs and all constructors incl. failing readers; caller backing array guarded by a canary. Held-on-what-was-observed, not a proof.",
+ "Every method result of parse.Input and buffer.Lexer is compared with an executable reference cursor while {Q} (quick) / {T} (thorough) random contract-respecting histories run over hostile inputs and all constructors incl. failing readers and standard-library readers of which the caller has already consumed a prefix; caller backing array guarded by a canary. Held-on-what-was-observed, not a proof.",
  "Trusts unicode/utf8 as the decoding reference and the harness's reference cursor (40 lines). Histories never move past the terminator (documented contract).",
  "DESIGN.md §4 C12")
 CHECKS["C13"] = (
  "online reference-model monitor over reader schedules x op histories, shadow copies of returned slices, pool-invariant hook, held-memory measurement (runtime monitoring)",
- "StreamLexer is driven by {Q} (quick) / {T} (thorough) random histories over random reader chunk schedules (zero-length reads, EOF/error with or after the last bytes, failure at a random offset), initial sizes 0..4096 and five Free disciplines; every result is compared with a reference cursor, every returned slice is shadow-copied and re-compared after each call while protected, ShiftLen is compared with the model, hook H2 pool invariants are asserted at each quiescent point, and held memory / allocation are measured on streams of length L and 8L. Held on what was observed.",
+ "StreamLexer is driven by {Q} (quick) / {T} (thorough) random histories over random reader chunk schedules (zero-length reads incl. runs of up to 300, EOF/error with or after the last bytes, failure at a random offset), initial sizes 0..4096 and five Free disciplines; every result (incl. look-behind Peek inside the token and forward Rewind to an earlier mark) is compared with a reference cursor, every returned slice is shadow-copied and re-compared after each call while protected, ShiftLen is compared with the model, hook H2 pool invariants are asserted at each quiescent point, and held memory / allocation are measured on streams of length L and 8L. Held on what was observed.",
  "Trusts the reference cursor and the reading of the protection threshold recorded in DESIGN.md §4 C13; memory clause decided against the bound 32*(bufsize+k*longest)+4 KiB with full-buffer reads for the delayed discipline (see DESIGN).",
  "DESIGN.md §4 C13")
 CHECKS["C01"] = (
@@ -85,16 +85,16 @@ CHECKS["C06"] = (
  "DESIGN.md §4 C06")
 CHECKS["C15"] = (
  "reference-model monitor for Position (line/column/context) on generated texts at every offset, error-offset hook H1 on hostile inputs for every lexer/parser, illegal-character insertion at token boundaries of generated JS/JSON (runtime monitoring)",
- "{Q} (quick) / {T} (thorough) cases (about 4*10^6 Position evaluations in the quick tier): line and column against an independent reference for all five break kinds, context layout and caret position, every *parse.Error's offset inside the input and its line/column/context equal to Position(input, offset), and exact position of one illegal character inserted between two tokens. Held on what was observed.",
+ "{Q} (quick) / {T} (thorough) cases (about 4*10^6 Position evaluations in the quick tier): line and column against an independent reference for all five break kinds, context layout and caret position, every *parse.Error's offset inside the input and its line/column/context equal to Position(input, offset), and exact position of one illegal character (@, U+0001, U+2030, 0x7f, for JS also a backslash) inserted between two tokens. Held on what was observed.",
  "Context layout details the statement leaves open (number column width, how a U+2028 ends the context line) are not judged; see evidence assumptions.",
  "DESIGN.md §4 C15")
 CHECKS["C18"] = (
  "trace monitor over the Enter/Exit log of a recording visitor against a reflection walk of the same tree (runtime monitoring)",
- "{Q} (quick) / {T} (thorough) trees from generated programs and mutated corpus entries x three visitor policies: every statement/expression/binding/identifier/block position entered (exactly once per position when descending everywhere), parent before child, Exit once per non-nil Enter in stack order, nothing entered below a node whose Enter returned nil, every pointer handed to Enter points into the tree (no copies, nothing reachable only through scope tables). Held on what was observed.",
+ "{Q} (quick) / {T} (thorough) trees from generated programs and mutated corpus entries x three visitor policies (plus 19 programs in syntax newer than the pinned grammar, checked whenever a tree is returned): every statement/expression/binding/identifier/block position entered (exactly once per position when descending everywhere), parent before child, Exit once per non-nil Enter in stack order and delivered to the visitor object that Enter returned (children to the visitor returned for their parent), nothing entered below a node whose Enter returned nil, every pointer handed to Enter points into the tree (no copies, nothing reachable only through scope tables). Held on what was observed.",
  "Required positions are defined by reflection over exported fields other than Scope; Walk may additionally enter sub-structures.",
  "DESIGN.md §4 C18")
 CHECKS["C20"] = (
  "Go race detector over goroutines driving private instances of every entry point, digest comparison concurrent vs sequential, history-independence digests, data-segment/heap-one-level snapshot diff of library package variables (runtime monitoring)",
- "{Q} (quick) / {T} (thorough) cases: 8-64 goroutines run 48 entry-point families on private copies under -race (a race report fails the case; concurrent digests must equal sequential ones; the full entry x entry matrix is covered), pool cases are replayed after different prefixes and orders in several processes (digests must not depend on history), and all library data/bss symbols (followed one level through pointers, slices and maps) are snapshotted before and after mixed workloads. Held on what was observed.",
+ "{Q} (quick) / {T} (thorough) cases: 8-64 goroutines run 48 entry-point families on private copies under -race (a race report fails the case; concurrent digests must equal sequential ones; the full entry x entry matrix is covered), pool cases are replayed after different prefixes and orders in several processes (digests must not depend on history), and all library data/bss symbols (followed one level through pointers, slices and maps) are snapshotted before and after mixed workloads; for 25 ordered pairs of reader-backed instance kinds, one instance is held inside its data source while another goroutine's instance must obtain its solo result. Held on what was observed.",
  "Rests on the race detector's happens-before analysis of the executions produced; the 'no mutable package state' clause is decided by the snapshot diff instead of a static scan.",
  "DESIGN.md §4 C20")
